@@ -1,5 +1,5 @@
 (* C28 - std headers and native implementations agree (arity part: proved; types: sampled, see checks/C28.py) *)
-From Coq Require Import String List Bool Arith.
+From Coq Require Import List Bool Arith NArith.
 From Elk Require Import Model.C28_Arity Proofs.C28_Arity Gen.C28_Headers.
 Import ListNotations.
 
@@ -57,17 +57,17 @@ Proof. exact compatible_complete. Qed.
 Print Assumptions C28_incompatible_found_is_hazard.
 
 (* The regenerated table (finite: one row per declared / inherited std method of the current tree).
-   Every row is compatible or is one of the listed exceptions ... *)
-Theorem C28_all_compatible : all_compatible exceptions rows = true.
-Proof. vm_compute. reflexivity. Qed.
-Print Assumptions C28_all_compatible.
-
-(* ... and the exceptions are EXACTLY the rows `compatible` rejects, in table order (the list is produced
-   by the harness's own copy of the test, so this also checks harness and model against each other).
+   The exception list written by the harness (its own copy of the compatibility test) is EXACTLY the list of
+   rows the Coq definition `compatible` rejects, in table order: harness and model agree on every row.
    checks/C28.py fails unless each exception is a recorded known finding. *)
 Theorem C28_exceptions_are_the_incompatible_rows : incompatible_keys rows = exceptions.
 Proof. vm_compute. reflexivity. Qed.
 Print Assumptions C28_exceptions_are_the_incompatible_rows.
+
+(* hence every row of the table is compatible or is one of the listed exceptions *)
+Theorem C28_all_compatible : all_compatible exceptions rows = true.
+Proof. rewrite <- C28_exceptions_are_the_incompatible_rows. exact (all_compatible_incompatible_keys rows). Qed.
+Print Assumptions C28_all_compatible.
 
 (* table + protocol: every non-excepted row with a runtime method is called safely with every admitted count *)
 Theorem C28_table_calls_safe : forall x argc below,
@@ -97,7 +97,7 @@ Example C28_mismatch_nonvacuous :
 Proof. vm_compute. reflexivity. Qed.
 
 Example C28_table_nonvacuous :
-  200 <=? length rows = true /\
-  existsb (fun x => r_found (row_rt x) && (0 <? d_opt (row_decl x))) rows = true /\
+  Nat.leb 200 (length rows) = true /\
+  existsb (fun x => r_found (row_rt x) && Nat.ltb 0 (d_opt (row_decl x))) rows = true /\
   existsb (fun x => r_found (row_rt x) && d_rest (row_decl x)) rows = true.
 Proof. vm_compute. repeat split. Qed.
